@@ -116,10 +116,10 @@ namespace c02
                                               "clear",
                                               "copy-ctor",
                                               "move-ctor",
-                                              "copy-assign(from other)",
-                                              "copy-assign(to other)",
-                                              "move-assign(from other)",
-                                              "move-assign(to other)",
+                                              "copy-assign(from-other)",
+                                              "copy-assign(to-other)",
+                                              "move-assign(from-other)",
+                                              "move-assign(to-other)",
                                               "copy-assign(self)",
                                               "compare",
                                               "at",
@@ -716,6 +716,11 @@ namespace c02
                 T x = E::make(id);
                 v->push_back(x);
                 m.push_back(id);
+            }
+            {
+                char b[64];
+                snprintf(b, sizeof b, "build(size=%d,capacity=%zu)", n, v->capacity());
+                trace = b;
             }
             if (spare >= 0 && v->capacity() != (size_t)(n + spare))
                 vf::fail("harness:build", "capacity %zu after reserve(%d)+%d push_back", v->capacity(), n + spare, n);
